@@ -218,6 +218,16 @@ impl Model {
                     }
                 }
             }
+            Op::AbandonAfterRelease { agent } => {
+                if let OpResult::Abandoned { was_pending } = res {
+                    // Nobody holds the state afterwards; it must still be there when it is asked for again.
+                    self.held.remove(agent);
+                    self.abandon_fired += 1;
+                    if !self.rocks && !*was_pending {
+                        self.violate("C13.handover", "abandon_not_pending", ctx, "a second request completed while the state was in use".into());
+                    }
+                }
+            }
             Op::ContendRequests { agent } => {
                 if let OpResult::Contended { first, second } = res {
                     self.contend_fired += 1;
